@@ -398,6 +398,19 @@ func init() {
 			}
 			return v
 		},
+		tp + "ResolveRefWithExtra": func(i *Interp, caller *frame, _ *ssa.Function, a []value) value {
+			ref := a[0].(*Term)
+			if !ref.Const {
+				fault("templater.ResolveRefWithExtra: symbolic ref")
+			}
+			name := strings.TrimPrefix(strings.TrimSpace(ref.S), ".")
+			extra, _ := a[2].(*mapV)
+			v, ok := i.templateLookup(caller, a[1], extra, name)
+			if !ok {
+				return iface{}
+			}
+			return v
+		},
 		"(*github.com/Masterminds/semver/v3.Version).Equal": func(i *Interp, _ *frame, _ *ssa.Function, a []value) value {
 			return TBool(true)
 		},
